@@ -16,6 +16,9 @@ C18 driver. Three kinds of cases (fields after the property id):
   console  <NO_COLOR> <CLICOLOR> <CLICOLOR_FORCE> <tty stdout?> <tty stderr?> <stdout|stderr> <tty_only>
            env values `-` (unset) | 0 | 1
            = the plan with the one appender <o|e><tty_only>a
+  planp    like plan, plus <message> <tokens>: every appender uses that pattern (hlf token syntax,
+           ordered parameters, no ESC) instead of the fixed one
+  fsize    <limit> <o|e>  the target stream is a file that fails after <limit> bytes; observation rc= file=
   plan     <NO_COLOR> <CLICOLOR> <CLICOLOR_FORCE> <tty stdout?> <tty stderr?> <items>
            items, `,`-joined, in build order: <o|e><0|1><a|b|c>   target stdout/stderr, tty_only,
            builder call order a = .target().tty_only(), b = .tty_only().target(), c = config deserializer
@@ -32,8 +35,12 @@ def decColor (s : String) : Option (Option Nat) :=
   | some n => if n < 8 then some (some n) else none
   | none => none
 
+/-- `-` unset, `0`, `1`; outside the property's quantifier: `e` (the empty string), `00`, `f`
+(`false`) — other Unicode strings, all `.one` for the code — and `x` (the byte 0xff, not Unicode) -/
 def decEnvVal (s : String) : Option EnvVal :=
-  if s = "-" then some .unset else if s = "0" then some .zero else if s = "1" then some .one else none
+  if s = "-" then some .unset else if s = "0" then some .zero
+  else if s = "1" || s = "e" || s = "00" || s = "f" then some .one
+  else if s = "x" then some .nonUnicode else none
 
 def decTarget (s : String) : Option Target :=
   if s = "stdout" then some .stdout else if s = "stderr" then some .stderr else none
@@ -58,13 +65,26 @@ def decParams (parts : List String) : Option Log4rs.Pattern.Params :=
     | _, _, _, _ => none
   | _ => none
 
-/-- `H`, `H/…`, `G/…` → (is highlight?, parameters) -/
-def decOpen (tok : String) : Option (Bool × Log4rs.Pattern.Params) :=
+inductive OpenKind where
+  | highlight | group | debug | release
+  deriving DecidableEq
+
+/-- `H`, `H/…`, `G/…`, `D/…` (`{D(`), `R/…` (`{R(`) → (kind, parameters) -/
+def decOpen (tok : String) : Option (OpenKind × Log4rs.Pattern.Params) :=
   match splitOnChar '/' tok with
-  | ["H"] => some (true, {})
-  | "H" :: rest => (decParams rest).map fun p => (true, p)
-  | "G" :: rest => (decParams rest).map fun p => (false, p)
+  | ["H"] => some (.highlight, {})
+  | "H" :: rest => (decParams rest).map fun p => (.highlight, p)
+  | "G" :: rest => (decParams rest).map fun p => (.group, p)
+  | "D" :: rest => (decParams rest).map fun p => (.debug, p)
+  | "R" :: rest => (decParams rest).map fun p => (.release, p)
   | _ => none
+
+/-- the harness (and with it log4rs) is built with `debug-assertions = true` (harness/Cargo.toml,
+[profile.release]): `{D(..)}` is a plain group, `{R(..)}` an empty one -/
+def debugBuild : Bool := true
+
+/-- what `{nosuch}` compiles to: `Chunk::Error`, written as this text -/
+def unknownFormatterText : List Char := "{ERROR: unknown formatter `nosuch`}".toList
 
 /-- token list → chunk list; returns the unconsumed tokens (an `E` is left for the caller) -/
 def parseChunks (level : Nat) (msg : List Char) : Nat → List String → Option (FChunks × List String)
@@ -80,6 +100,10 @@ def parseChunks (level : Nat) (msg : List Char) : Nat → List String → Option
       match parseChunks level msg fuel rest with
       | some (r, rest') => some (.text msg r, rest')
       | none => none
+    else if tok = "U" then
+      match parseChunks level msg fuel rest with
+      | some (r, rest') => some (.text unknownFormatterText r, rest')
+      | none => none
     else if tok.startsWith "T" then
       match (decBytes (tok.drop 1).toString).bind decodeUtf8, parseChunks level msg fuel rest with
       | some cs, some (r, rest') => some (.text cs r, rest')
@@ -87,11 +111,16 @@ def parseChunks (level : Nat) (msg : List Char) : Nat → List String → Option
     else
       match decOpen tok with
       | none => none
-      | some (isH, p) =>
+      | some (k, p) =>
         match parseChunks level msg fuel rest with
         | some (inner, "E" :: rest') =>
           match parseChunks level msg fuel rest' with
-          | some (r, rest'') => some (if isH then .highlight p inner r else .group p inner r, rest'')
+          | some (r, rest'') =>
+            some (match k with
+              | .highlight => .highlight p inner r
+              | .group => .group p inner r
+              | .debug => .group p (if debugBuild then inner else .nil) r
+              | .release => .group p (if debugBuild then .nil else inner) r, rest'')
           | none => none
         | _ => none
 
@@ -200,11 +229,7 @@ def handleHl (w lvl : String) (msg : List Char) (toks implObs : String) : Answer
         else match decBytes implObs with
           | none => Verdict.fail "unreadable observation" "C18/hl-observation"
           | some bs =>
-            match formattedVerdict kind.isTty level f bs with
-            | .ok =>
-              -- without width parameters the text is specified here as well (token-exact)
-              if f.unformatted then streamVerdict kind.isTty [level] (fun _ => f.erase) bs "C18/hl-" else .ok
-            | v => v
+            formattedVerdict kind.isTty level f bs
       let d := depth f
       let ff := factsOf level f
       let flag (b : Bool) (t : String) : List String := if b then [t] else []
@@ -216,7 +241,9 @@ def handleHl (w lvl : String) (msg : List Char) (toks implObs : String) : Answer
           ++ flag ff.aroundHighlight "fmt-around-highlight" ++ flag ff.cut "cut"
           ++ flag ff.cutAll "cut-to-zero" ++ flag ff.maxZero "maxw-0" ++ flag ff.right "right-align"
           ++ flag ff.padded "padded" ++ flag ff.minGtMax "min-gt-max"
-          ++ flag (!f.unformatted) ("group-depth-" ++ toString (min (groupDepth f) 4)) }
+          ++ flag (!f.unformatted) ("group-depth-" ++ toString (min (groupDepth f) 4))
+          ++ flag (fOrdered f) "token-exact" ++ flag (!fEscFree f) "esc-in-content"
+          ++ flag (!fOrdered f && !fEscFree f) "unspecified" }
   | _, _ => badCase "hl"
 
 def decItem (s : String) : Option PlanItem :=
@@ -226,22 +253,40 @@ def decItem (s : String) : Option PlanItem :=
     let b? : Option Bool := if b = '1' then some true else if b = '0' then some false else none
     let o? : Option CallOrder :=
       if o = 'a' then some .targetThenTtyOnly else if o = 'b' then some .ttyOnlyThenTarget
-      else if o = 'c' then some .viaConfig else none
+      else if o = 'c' then some .viaConfig else if o = 'd' then some .viaConfigOmitDefaults else none
     match t?, b?, o? with
     | some t, some b, some o => some { target := t, ttyOnly := b, order := o }
     | _, _, _ => none
   | _ => none
 
-def handlePlan (nc cc cf to te items implObs : String) (single : Bool) : Answer :=
+/-- `pat` = none: the fixed child pattern `{h({l} {m})}{n}`; some (msg, tokens): that pattern -/
+def handlePlan (nc cc cf to te items implObs : String) (single : Bool)
+    (pat : Option (List Char × String) := none) : Answer :=
+  let otherStrings := [nc, cc, cf].any fun v => v = "e" || v = "00" || v = "f"
   match decEnvVal nc, decEnvVal cc, decEnvVal cf, decBool to, decBool te, mapM? decItem (decList ',' items) with
   | some nc, some cc, some cf, some to, some te, some items =>
     let g : Global := { env := { noColor := nc, clicolor := cc, clicolorForce := cf }, ttyOut := to, ttyErr := te }
-    let model := match runPlan g items childPattern childLevels with
+    let fpat? : Option (Nat → FChunks) := match pat with
+      | none => some fun _ => .nil
+      | some (msg, toks) =>
+        if childLevels.all (fun l => match decChunks l msg toks with
+            | some f => fOrdered f && fEscFree f | none => false)
+        then some fun l => (decChunks l msg toks).getD .nil else none
+    match fpat? with
+    | none => badCase "planp needs a decodable, ordered, ESC-free pattern"
+    | some fpat =>
+    let run := match pat with
+      | none => runPlan g items childPattern childLevels
+      | some _ => runPlanFormatted g items fpat childLevels
+    let want : Want := match pat with
+      | none => chunksWant childPattern
+      | some _ => formattedWant fpat
+    let model := match run with
       | .ok st => "rc=0 out=" ++ encBytes st.out ++ " err=" ++ encBytes st.err
       | _ => "rc=3 out=_ err=_"
     let spec := match decConsoleObs implObs with
       | none => Verdict.fail "unreadable observation" "C18/console-observation"
-      | some (rc, o, e) => planVerdict g items childLevels childPattern rc o e
+      | some (rc, o, e) => planVerdict g items childLevels want rc o e
     let flag (b : Bool) (t : String) : List String := if b then [t] else []
     let itemTags (it : PlanItem) : List String :=
       let tty := g.isatty it.target
@@ -252,16 +297,18 @@ def handlePlan (nc cc cf to te items implObs : String) (single : Bool) : Answer 
        if colourEnabled g.env tty then "colour" else "no-colour",
        match it.order with
        | .targetThenTtyOnly => "order-target-first" | .ttyOnlyThenTarget => "order-tty-only-first"
-       | .viaConfig => "order-via-config"]
+       | .viaConfig => "order-via-config" | .viaConfigOmitDefaults => "order-via-config-defaults"]
       ++ flag (itemF2Region g it) "f2-tty-only-colour-forced"
     { model
       spec := spec.render
-      tags := ([if single then "console" else "plan", "mode-" ++ (colorMode g.env).name,
+      tags := ([if single then "console" else if pat.isSome then "planp" else "plan", "mode-" ++ (colorMode g.env).name,
                 "appenders-" ++ toString (min items.length 3)]
         ++ flag (to != te) "streams-differ"
         ++ flag (items.any (·.target == .stdout) && items.any (·.target == .stderr)) "both-targets"
         ++ flag (leakRegion g items) "leak-region"
         ++ flag (to != te && items.any (·.ttyOnly)) "wrong-stream-region"
+        ++ flag (!g.env.inQuantifier) "env-outside-quantifier"
+        ++ flag otherStrings "env-other-strings"
         ++ items.flatMap itemTags).eraseDups }
   | _, _, _, _, _, _ => badCase "plan"
 
@@ -270,6 +317,35 @@ def handleConsole (nc cc cf to te tg tonly implObs : String) : Answer :=
   | some tg, some tonly =>
     handlePlan nc cc cf to te ((if tg = .stdout then "o" else "e") ++ (if tonly then "1" else "0") ++ "a") implObs true
   | _, _ => badCase "console"
+
+/-- `fsize <limit> <o|e>`: one unrestricted appender with colour forced (CLICOLOR_FORCE=1) whose
+target is a file that accepts `limit` bytes (RLIMIT_FSIZE) and then fails every write.
+observation: `rc=<exit code> file=<hex>` -/
+def handleFsize (limit tg implObs : String) : Answer :=
+  match decNat limit, (if tg = "o" then some Target.stdout else if tg = "e" then some Target.stderr else none) with
+  | some limit, some _ =>
+    let full : List Nat := childLevels.flatMap fun l => render (chunksWant childPattern true l)
+    let modelFull := match childLevels.foldr (fun l acc => match encodeChunks .tty l (childPattern l), acc with
+        | .ok a, some b => some (a ++ b) | _, _ => none) (some []) with
+      | some bs => bs | none => []
+    let d := deliver limit modelFull
+    let model := "rc=" ++ (match d.1 with | .ok _ => "0" | _ => "4") ++ " file=" ++ encBytes d.2
+    let spec := match splitOnChar ' ' implObs with
+      | [a, b] =>
+        match stripPrefix? "rc=" a, stripPrefix? "file=" b with
+        | some rc, some f =>
+          match rc.toNat?, decBytes f with
+          | some rc, some f => failedStreamVerdict limit full rc f
+          | _, _ => Verdict.fail "unreadable observation" "C18/fsize-observation"
+        | _, _ => Verdict.fail "unreadable observation" "C18/fsize-observation"
+      | _ => Verdict.fail "unreadable observation" "C18/fsize-observation"
+    let cutInGroup := match scan d.2 with
+      | some toks => !wellNested (sgrToks toks)
+      | none => true
+    { model, spec := spec.render,
+      tags := ["fsize", if limit ≥ full.length then "fits" else "stream-fails"]
+        ++ (if limit < full.length && cutInGroup then ["reset-lost-to-failure"] else []) }
+  | _, _ => badCase "fsize"
 
 def handle : Handler := fun cas obs =>
   match cas, obs with
@@ -281,6 +357,11 @@ def handle : Handler := fun cas obs =>
     | none => badCase "message"
   | ["console", nc, cc, cf, to, te, tg, tonly], [o] => handleConsole nc cc cf to te tg tonly o
   | ["plan", nc, cc, cf, to, te, items], [o] => handlePlan nc cc cf to te items o false
+  | ["planp", nc, cc, cf, to, te, items, msg, toks], [o] =>
+    match decStr msg with
+    | some m => handlePlan nc cc cf to te items o false (some (m, toks))
+    | none => badCase "message"
+  | ["fsize", limit, tg], [o] => handleFsize limit tg o
   | _, _ => badCase "arity"
 
 end Driver.C18
